@@ -53,6 +53,18 @@ def _case(s, k, rng):
         rp = _pair(sample_hdi(arr[perm], f))
         a, b = int(rng.integers(1, 4)), int(rng.integers(-3, 6))
         ra = _pair(sample_hdi(a * arr + b, f))
+        # one work array re-filled IN PLACE between two calls (the same object, other values): the interval of its current content
+        buf = flt.copy()
+        sample_hdi(buf, f)
+        buf *= a
+        buf += b
+        if _pair(sample_hdi(buf, f)) != ra:
+            ra = [-994, -994]
+        lst = [float(v) for v in s]
+        sample_hdi(lst, f)
+        lst[:] = [float(a * v + b) for v in s]
+        if _pair(sample_hdi(lst, f)) != ra:
+            ra = [-993, -993]
         # non-dyadic float values (0.1 x - 0.37: lo + (hi - lo) is not hi in doubles) and whole numbers beyond 2^53 (int64): the end points are
         # mapped back to the lattice by EXACT look-up, -996 if an end point is not one of the sample values
         fmap = {float(0.1 * v - 0.37): int(v) for v in s}
